@@ -99,6 +99,13 @@ theorem spaced_joinStr (l : List Str) (h : l ≠ []) : spaced [joinStr [32] l] =
   | nil => exact absurd rfl h
   | cons a l => rw [joinStr_blank, spaced_cons, spaced_cons]; simp [spaced]
 
+/-- a text of the hand model that always exists -/
+def resS : Option Str → R Val
+  | some s => .ok (.str s)
+  | none => .stuck
+
+@[simp] theorem resS_some (s : Str) : resS (some s) = .ok (.str s) := rfl
+
 /-- the translated renderer agrees with the hand model: same text, or both refuse -/
 def agrees (r : R Val) (o : Option Str) : Prop :=
   match o with
